@@ -35,6 +35,17 @@ inductive Op where
   | rep (id : String) (n : Nat) (filt : Option (List Nat))
 deriving Inhabited
 
+/-- `Reach.ball g filt srcs k` for the smallest k ≤ n at which the ball is closed (computed incrementally:
+    `ball (k+1) = expand (ball k)` by definition).  `Reach.closed_ball_reachable` holds for EVERY k whose ball is
+    closed, so the judge may stop at the first one instead of always iterating n times (what made graphs with
+    thousands of nodes infeasible); the caller still evaluates `closedB` on the result. -/
+def closingBall (g : Reach.Graph) (filt : Nat → Bool) (srcs : List Nat) (n : Nat) : List Nat := Id.run do
+  let mut C := srcs
+  for _ in [0:n] do
+    if Reach.closedB g filt C then return C
+    C := Reach.expand g filt C
+  return C
+
 /-- how many of the runs of a `rep` op are observed individually -/
 def repObserved (n : Nat) : Nat := Nat.min n 3
 
@@ -132,7 +143,7 @@ def judgeRun (impl : List String) (gs : GState) (j : Nat) (srcs tgts : List Nat)
   let alg := gs.alg
   let linesOf (pfx : String) : List String := impl.filter (fun l => (l.startsWith (pfx ++ " ")))
   let filt := filtFn f
-  let C := Reach.ball g filt srcs n
+  let C := closingBall g filt srcs n
   if !Reach.closedB g filt C then
     return (some s!"run {j}: judge: ball n is not closed (spec checker out of fuel)", stt)
   let reach := Reach.anyTargetIn C tgts
@@ -354,8 +365,8 @@ def handle (c : Case) : CaseOut := Id.run do
     | some (cnt, srcs, tgts, f) =>
       -- every one of the `cnt` calls must have returned what the Spec says for this (graph, filter, S, T)
       let filt := filtFn f
-      let C := Reach.ball gs.g filt srcs gs.n
-      let expected := tgts.isEmpty || Reach.anyTargetIn C tgts
+      let C := closingBall gs.g filt srcs gs.n
+      let expected := tgts.isEmpty || (Reach.closedB gs.g filt C && Reach.anyTargetIn C tgts)
       match impl.filter (fun l => l.startsWith s!"D r{j0} ") with
       | [l] =>
         let want := if expected then cnt else 0
